@@ -1,6 +1,8 @@
 package rules
 
 import (
+	"go/token"
+
 	"golang.org/x/tools/go/ssa"
 
 	"olricvet/internal/core"
@@ -140,7 +142,7 @@ func c14UnsubscribeKindFilter(r *core.Run) {
 				}
 				for _, cd := range conds {
 					bin, isBin := cd.Val.(*ssa.BinOp)
-					if isBin && cd.Truth && (core.LastField(bin.X) == "pattern" || core.LastField(bin.Y) == "pattern") {
+					if isBin && ((bin.Op == token.EQL && cd.Truth) || (bin.Op == token.NEQ && !cd.Truth)) && (core.LastField(bin.X) == "pattern" || core.LastField(bin.Y) == "pattern") {
 						filtered = true
 					}
 				}
